@@ -147,6 +147,10 @@ enum Shape {
     In { lo: RtInt, hi: RtInt },
     CountIn { lo: RtInt, hi: RtInt },
     Offset { n: RtInt },
+    /// `N of ($a, $b) in (lo..hi)`: loop calling is_pat_match_in with run-time bounds
+    OfIn { n: RtInt, lo: RtInt, hi: RtInt, any: bool },
+    /// `for any i in (lo..hi) : ($a at i)` over a short run-time range around real matches
+    ForInAt { lo: RtInt, hi: RtInt, count_form: bool },
     Length { n: RtInt },
     UintN { f: &'static str, width: i64, n: RtInt },
     Abs { n: RtInt },
@@ -176,7 +180,7 @@ impl Shape {
             Shape::PctRange { .. } => "for Q% in range", Shape::ForNRange { .. } => "for N in range",
             Shape::Div { .. } => "div", Shape::Mod { .. } => "mod", Shape::Shl { .. } => "shl", Shape::Shr { .. } => "shr", Shape::Arith { .. } => "arith",
             Shape::At { .. } => "$a at N", Shape::In { .. } => "$a in (lo..hi)", Shape::CountIn { .. } => "#a in (lo..hi)",
-            Shape::Offset { .. } => "@a[N]", Shape::Length { .. } => "!a[N]", Shape::UintN { .. } => "uintN(N)",
+            Shape::Offset { .. } => "@a[N]", Shape::OfIn { .. } => "N of .. in (lo..hi)", Shape::ForInAt { .. } => "for i in (lo..hi): $a at i", Shape::Length { .. } => "!a[N]", Shape::UintN { .. } => "uintN(N)",
             Shape::Abs { .. } => "math.abs", Shape::HashRange { .. } => "hash.*(off,size)", Shape::MathRange { .. } => "math.*(off,len)", Shape::ConsoleRange { .. } => "console.log(off,len)",
             Shape::Other { kind, .. } => kind,
         }
@@ -186,7 +190,8 @@ impl Shape {
             Shape::OfRange { n, .. } | Shape::ForNOf { n } | Shape::At { n } | Shape::Offset { n } | Shape::Length { n } | Shape::UintN { n, .. } | Shape::Abs { n } => vec![n],
             Shape::PctOf { q, .. } => vec![q],
             Shape::PctRange { q, lo, hi } => vec![q, lo, hi],
-            Shape::ForNRange { n, lo, hi } => vec![n, lo, hi],
+            Shape::ForNRange { n, lo, hi } | Shape::OfIn { n, lo, hi, .. } => vec![n, lo, hi],
+            Shape::ForInAt { lo, hi, .. } => vec![lo, hi],
             Shape::Div { a, b } | Shape::Mod { a, b } | Shape::Shl { a, b } | Shape::Shr { a, b } => vec![a, b],
             Shape::In { lo, hi } | Shape::CountIn { lo, hi } => vec![lo, hi],
             Shape::HashRange { off, size, .. } => vec![off, size],
@@ -215,6 +220,11 @@ impl Shape {
             Shape::In { lo, hi } => { strings = vec![a]; format!("$a in ({}..{})", lo.text(), hi.text()) }
             Shape::CountIn { lo, hi } => { strings = vec![a]; format!("#a in ({}..{}) == 1", lo.text(), hi.text()) }
             Shape::Offset { n } => { strings = vec![a]; format!("@a[{}] == 0", n.text()) }
+            Shape::OfIn { n, lo, hi, any } => { strings = vec![a, b];
+                if *any { format!("any of ($a, $b) in ({}..{})", lo.text(), hi.text()) } else { format!("{} of ($a, $b) in ({}..{})", n.text(), lo.text(), hi.text()) } }
+            Shape::ForInAt { lo, hi, count_form } => { strings = vec![a];
+                if *count_form { format!("for any i in ({}..{}) : ( #a in (i..{}) > 0 or #a in ({}..i) > 1 )", lo.text(), hi.text(), lo.text(), hi.text()) }
+                else { format!("for any i in ({}..{}) : ( $a at i )", lo.text(), hi.text()) } }
             Shape::Length { n } => { strings = vec![a]; format!("!a[{}] == 4", n.text()) }
             Shape::UintN { f, n, .. } => format!("{}({}) == 65", f, n.text()),
             Shape::Abs { n } => { imports = vec!["math"]; format!("math.abs({}) == 1", n.text()) }
@@ -249,13 +259,15 @@ impl Shape {
             Shape::In { lo, hi } => format!("SMatchesInRange \"is_pat_match_in\" {} {}", z(lo), z(hi)),
             Shape::CountIn { lo, hi } => format!("SMatchesInRange \"pat_matches_in\" {} {}", z(lo), z(hi)),
             Shape::Offset { n } => format!("SPatIndex \"pat_offset\" {}", z(n)),
+            // the quantifier is only compared inside WASM; when it is undefined nothing is called
+            Shape::OfIn { n, lo, hi, any } => if *any || n.eval(env).is_some() { format!("SMatchesInRange \"is_pat_match_in\" {} {}", z(lo), z(hi)) } else { "SOther".into() },
             Shape::Length { n } => format!("SPatIndex \"pat_length\" {}", z(n)),
             Shape::UintN { f, width, n } => format!("SUintN \"{}\" {}%Z {} {}", f, width, z(n), coq_oz(datalen)),
             Shape::Abs { n } => format!("SAbs {}", z(n)),
             Shape::HashRange { f, off, size } => format!("SHashRange \"{}\" {} {}", rust_fn(f), z(off), z(size)),
             Shape::MathRange { f, off, len } => format!("SDataRange \"{}\" {} {}", rust_fn(f), z(off), z(len)),
             Shape::ConsoleRange { off, len, .. } => format!("SConsoleRange {} {} {}", z(off), z(len), coq_oz(datalen)),
-            Shape::ForNOf { .. } | Shape::ForNRange { .. } | Shape::Arith { .. } | Shape::Other { .. } => "SOther".into(),
+            Shape::ForNOf { .. } | Shape::ForNRange { .. } | Shape::ForInAt { .. } | Shape::Arith { .. } | Shape::Other { .. } => "SOther".into(),
         }
     }
     /// which known trap / panic class this shape hits under `env` (harness-side
@@ -318,7 +330,63 @@ fn other_shapes() -> Vec<Shape> {
     ]
 }
 
-fn gen_shape(rng: &mut Rng, fs: i64, cnt: i64, others: &[Shape]) -> Shape {
+/// all (overlapping) occurrences of the $a token of the rule at position idx
+fn match_starts(d: &[u8], idx: usize) -> Vec<i64> {
+    let t = TOKENS[idx % 3].0.as_bytes();
+    if d.len() < t.len() { return vec![]; }
+    (0..=d.len() - t.len()).filter(|i| &d[*i..*i + t.len()] == t).map(|i| i as i64).collect()
+}
+
+/// an offset placed relative to the real matches: on a match, just before / after it, strictly
+/// between two matches, before the first, after the last, at / beyond the end of the data, negative
+fn gen_point(rng: &mut Rng, starts: &[i64], len: i64) -> i64 {
+    if starts.is_empty() || rng.chance(1, 6) { return *rng.pick(&[0i64, -1, -7, 1, len - 1, len, len + 9, i64::MAX, i64::MIN, 1 << 40]); }
+    let k = rng.below(starts.len() as u64) as usize;
+    let s = starts[k];
+    match rng.below(9) {
+        0 | 1 => s,
+        2 => s - 1,
+        3 => s + 1,
+        4 => s + 4,
+        5 => if k + 1 < starts.len() { (s + starts[k + 1]) / 2 } else { s + 2 },
+        6 => starts[0] - 1 - rng.below(3) as i64,
+        7 => starts[starts.len() - 1] + 1 + rng.below(6) as i64,
+        _ => *rng.pick(&[0i64, -1, -3, len - 1, len, len + 5]),
+    }
+}
+
+/// a pair of bounds in every ordering: lo < hi, lo = hi, lo > hi (inverted, possibly with matches in the gap)
+fn gen_bounds(rng: &mut Rng, starts: &[i64], len: i64) -> (i64, i64) {
+    let (p, q) = (gen_point(rng, starts, len), gen_point(rng, starts, len));
+    match rng.below(6) {
+        0 | 1 => (p.min(q), p.max(q)),
+        2 | 3 => (p.max(q), p.min(q)),
+        4 => (p, p),
+        _ => (p, q),
+    }
+}
+
+fn gen_shape(rng: &mut Rng, fs: i64, cnt: i64, others: &[Shape], starts: &[i64]) -> Shape {
+    // shapes aimed at the match lists: run-time bounds / indexes placed around real matches
+    if !starts.is_empty() && (if starts.len() >= 2 { rng.chance(3, 5) } else { rng.chance(1, 4) }) {
+        let nm = starts.len() as i64;
+        match rng.below(7) {
+            0 | 1 | 2 => { let (l, h) = gen_bounds(rng, starts, fs);
+                let (lo, hi) = (gen_rt_to(rng, fs, cnt, l), gen_rt_to(rng, fs, cnt, h));
+                return if rng.chance(1, 2) { Shape::CountIn { lo, hi } } else { Shape::In { lo, hi } }; }
+            3 => { let (l, h) = gen_bounds(rng, starts, fs);
+                let nv = *rng.pick(&[0i64, 1, 2, 3, -1]);
+                return Shape::OfIn { n: gen_rt_to(rng, fs, cnt, nv), lo: gen_rt_to(rng, fs, cnt, l), hi: gen_rt_to(rng, fs, cnt, h), any: rng.chance(1, 3) }; }
+            4 => { // short ranges only: the loop runs hi - lo + 1 times
+                let l = gen_point(rng, starts, fs).clamp(-20, fs + 20);
+                let h = if rng.chance(1, 3) { l - 1 - rng.below(12) as i64 } else { l + rng.below(40) as i64 };
+                return Shape::ForInAt { lo: gen_rt_to(rng, fs, cnt, l), hi: gen_rt_to(rng, fs, cnt, h), count_form: rng.chance(1, 2) }; }
+            5 => { let p = gen_point(rng, starts, fs); return Shape::At { n: gen_rt_to(rng, fs, cnt, p) }; }
+            _ => { let i = *rng.pick(&[0i64, 1, nm, nm + 1, nm - 1, -1, nm + 2]);
+                let n = gen_rt_to(rng, fs, cnt, i);
+                return if rng.chance(1, 2) { Shape::Offset { n } } else { Shape::Length { n } }; }
+        }
+    }
     let big_q = |rng: &mut Rng| -> i64 { *rng.pick(&[0i64, 1, -1, 50, 100, 101, 1000, 3000, 0x7fff_ffff, 1 << 53, 1 << 62, i64::MAX, i64::MIN, -100, i64::MAX / 2]) };
     match rng.below(22) {
         0 | 1 => {
@@ -399,7 +467,7 @@ struct Case { shapes: Vec<Shape>, src: String, data: Vec<u8>, buf_kind: &'static
 fn count_tok(d: &[u8], idx: usize) -> i64 { let t = TOKENS[idx % 3].2.as_bytes(); d.windows(2).filter(|w| *w == t).count() as i64 }
 
 fn gen_buffer(rng: &mut Rng) -> (Vec<u8>, &'static str) {
-    match rng.below(8) {
+    match rng.below(11) {
         0 => (vec![], "empty"),
         1 => (vec![*rng.pick(&[b'A', b'Q', 0u8, 0xffu8])], "1 byte"),
         2 | 3 => { let n = 2 + rng.below(60) as usize; ((0..n).map(|_| rng.next() as u8).collect(), "small random") }
@@ -409,7 +477,15 @@ fn gen_buffer(rng: &mut Rng) -> (Vec<u8>, &'static str) {
             (d, "pattern tokens") }
         5 => { let n = 64 + rng.below(4000) as usize; let b = *rng.pick(&[b'A', b'B', b'C', b'F']); (vec![b; n], "dense repetitive") }
         6 => { let n = 16 + rng.below(600) as usize; let t = *rng.pick(&[&b"QZ"[..], b"QY", b"QX"]); let mut d = Vec::with_capacity(2 * n); for _ in 0..n { d.extend_from_slice(t); } (d, "dense repetitive") }
-        _ => { let n = 3 + rng.below(5) as usize; ((0..n).map(|i| b"AAAAB"[i % 5]).collect(), "tiny") }
+        7 => { let n = 3 + rng.below(5) as usize; ((0..n).map(|i| b"AAAAB"[i % 5]).collect(), "tiny") }
+        _ => { // the patterns occur at several offsets, separated by filler of varying length
+            let mut d = vec![]; let n = 2 + rng.below(6);
+            for _ in 0..rng.below(5) { d.push(b'_'); }
+            for _ in 0..n {
+                d.extend_from_slice(*rng.pick(&[&b"AAAA"[..], b"AAAA", b"AAAA", b"BBBB", b"AAAAA", b"CCCC", b"DDDD", b"EEEE", b"QZ"]));
+                for _ in 0..1 + rng.below(7) { d.push(b'_'); }
+            }
+            (d, "spaced matches") }
     }
 }
 
@@ -431,7 +507,7 @@ fn gen_case(rng: &mut Rng, others: &[Shape]) -> Case {
     let (data, buf_kind) = gen_buffer(rng);
     let fs = data.len() as i64;
     let n = match rng.below(10) { 0..=6 => 1, 7 | 8 => 2, _ => 3 };
-    let shapes: Vec<Shape> = (0..n).map(|i| gen_shape(rng, fs, count_tok(&data, i), others)).collect();
+    let shapes: Vec<Shape> = (0..n).map(|i| { let st = match_starts(&data, i); gen_shape(rng, fs, count_tok(&data, i), others, &st) }).collect();
     Case { src: build_source(&shapes), shapes, data, buf_kind }
 }
 
@@ -448,6 +524,11 @@ fn corpus() -> Vec<Case> {
         mk(vec![Shape::HashRange { f: "hash.md5", off: konst(i64::MAX), size: fsz(Op::Bare, 0) }], b"abc"),
         mk(vec![Shape::ConsoleRange { off: fsz(Op::Sub, 1), len: konst(i64::MAX), msg: false }], b"abc"),
         mk(vec![Shape::OfRange { n: fsz(Op::Add, 0x7fff_fffe), them: true }], b"A"),
+        // inverted run-time range with a match strictly between the bounds
+        mk(vec![Shape::CountIn { lo: fsz(Op::Sub, 4), hi: fsz(Op::Sub, 14) }], b"AAAA__AAAA__AAAA___"),
+        mk(vec![Shape::In { lo: fsz(Op::Sub, 4), hi: fsz(Op::Sub, 14) }], b"AAAA__AAAA__AAAA___"),
+        mk(vec![Shape::OfIn { n: fsz(Op::Sub, 18), lo: fsz(Op::Sub, 4), hi: fsz(Op::Sub, 14), any: false }], b"AAAA__AAAA__AAAA___"),
+        mk(vec![Shape::Offset { n: fsz(Op::Sub, 15) }, Shape::Length { n: fsz(Op::Sub, 19) }], b"AAAA__AAAA__AAAA___"),
         mk(vec![Shape::Mod { a: konst(i64::MIN), b: fsz(Op::Sub, 4) }], b"abc"),
         mk(vec![Shape::UintN { f: "uint32", width: 4, n: fsz(Op::Add, i64::MAX - 5) }], b"abcd"),
     ]
@@ -797,7 +878,28 @@ fn run(args: &[String]) -> i32 {
                 continue;
             }
             if pushed >= n { break; }
-            for s in &case.shapes { stats.inc(&format!("shape:{}", s.kind())); }
+            for (ri, s) in case.shapes.iter().enumerate() {
+                stats.inc(&format!("shape:{}", s.kind()));
+                // where the run-time bounds / indexes fall relative to the real matches (in-memory scan)
+                let env = Env { filesize: Some(case.data.len() as i64), count: count_tok(&case.data, ri) };
+                let st = match_starts(&case.data, ri);
+                match s {
+                    Shape::In { lo, hi } | Shape::CountIn { lo, hi } | Shape::OfIn { lo, hi, .. } => if let (Some(l), Some(h)) = (lo.eval(&env), hi.eval(&env)) {
+                        let inside = st.iter().filter(|m| l.min(h) <= **m && **m <= l.max(h)).count();
+                        let strictly = st.iter().filter(|m| l.min(h) < **m && **m < l.max(h)).count();
+                        let k = if l > h && h >= 0 && strictly > 0 { "inverted, hi >= 0, matches strictly between the bounds" }
+                                else if l > h { "inverted, other" } else if l == h { if inside > 0 { "lo = hi on a match" } else { "lo = hi, no match" } }
+                                else if inside > 0 { "ordered, matches inside" } else { "ordered, no match inside" };
+                        stats.inc(&format!("bounds:{}", k));
+                    },
+                    Shape::Offset { n } | Shape::Length { n } => if let Some(i) = n.eval(&env) {
+                        let c = st.len() as i64;
+                        stats.inc(&format!("index:{}", if i <= 0 { "<= 0" } else if i < c { "1..count-1" } else if i == c { "= count" } else if i == c + 1 { "= count+1" } else { "> count+1" }));
+                    },
+                    Shape::At { n } => if let Some(o) = n.eval(&env) { stats.inc(&format!("at:{}", if st.contains(&o) { "on a match" } else if st.contains(&o.wrapping_sub(1)) || st.contains(&o.wrapping_add(1)) { "next to a match" } else { "elsewhere" })); },
+                    _ => {}
+                }
+            }
             stats.inc(&format!("buffer:{}", case.buf_kind));
             stats.inc(&format!("rules:{}", case.shapes.len()));
             distinct.insert(case.src.clone());
